@@ -52,7 +52,8 @@ def main():
                                "--exclude", "__pycache__", "/repo/", tmp + "/"])
         demo_src = open(os.path.join(sd, "demo.py")).read()
         # demos were written against a worktree path; point them at the copy
-        demo_path = os.path.join(tmp, "_seed_demo.py")
+        os.makedirs(os.path.join(tmp, "seed"), exist_ok=True)
+        demo_path = os.path.join(tmp, "seed", "demo.py")
         wt = meta.get("worktree")
         if wt:
             demo_src = demo_src.replace(wt, tmp)
